@@ -1227,9 +1227,15 @@ class Walker:
         body = n["body"]
         # havoc locals assigned in the body; kill facts about places assigned in the body
         assigned = self.local_ids_assigned(body)
+        before = {lid: self.T.env.get(lid) for lid in assigned}
+        mono = self._only_incremented(body, set(assigned))
         for lid, nm in assigned.items():
             if lid in self.T.env:
                 self.havoc_local(lid, nm)
+                # a local that the body only ever increases (`x += <non-negative literal>`) never drops below
+                # the value it had on entry: loop invariant `entry value <= x`
+                if lid in mono and before.get(lid) is not None:
+                    K.add([atom_le(before[lid], self.T.env[lid])])
         kills = self.assigned_places(body)
         self.apply_kills(K, kills)
         head_env = dict(self.T.env)
@@ -1253,6 +1259,24 @@ class Walker:
         if n.get("src") == "Loop" and nbreaks == 0:
             return True
         return False
+
+    def _only_incremented(self, body, lids):
+        """Locals among lids whose every assignment in body is `x += <literal >= 0>` (and that are not borrowed mutably)."""
+        bad, seen = set(), set()
+        for n in walk(body):
+            k = n.get("k")
+            if k in ("Assign", "AssignOp") and n["l"].get("k") == "Path" and n["l"].get("res") == "local" and n["l"].get("id") in lids:
+                lid = n["l"]["id"]
+                r = n["r"]
+                if k == "AssignOp" and n["op"] == "+=" and r.get("k") == "Lit" and r.get("lk") == "int" and int(r.get("v", -1)) >= 0:
+                    seen.add(lid)
+                else:
+                    bad.add(lid)
+            elif k == "AddrOf" and n.get("mut") and n["e"].get("k") == "Path" and n["e"].get("id") in lids:
+                bad.add(n["e"]["id"])
+            elif k == "MethodCall" and n["recv"].get("k") == "Path" and n["recv"].get("id") in lids and self.F.tya(n["recv"]).startswith("&mut"):
+                bad.add(n["recv"]["id"])
+        return seen - bad
 
     def _own_breaks(self, body):
         """Break nodes that exit this loop (not nested loops' unlabeled breaks)."""
@@ -1495,3 +1519,68 @@ def canon_masks(t):
         if op == "-" and a[0] == "op" and a[1] == "<<" and _is_one(a[2]) and _is_one(b):
             return ("lowmask", a[3])
     return t
+
+
+# ---- unification of local names between sibling skeletons ------------------------------------------
+_LVAR = re.compile(r"\('var', '([A-Za-z_][A-Za-z0-9_]*)'\)")
+
+
+def local_names(items, fixed):
+    out = set()
+    for it, n in items:
+        for m in _LVAR.finditer(repr(it)):
+            if m.group(1) not in fixed:
+                out.add(m.group(1))
+        tag = it[0]
+        if tag.startswith(("upd:", "set:", "let:")):
+            out.add(tag.split(":")[1])
+    return out
+
+
+def signatures(items, names):
+    """name -> multiset of the items it occurs in, with the name marked and every other local blanked"""
+    from collections import Counter
+    sig = {n: Counter() for n in names}
+    for it, cnt in items:
+        r = repr(it)
+        present = set(m.group(1) for m in _LVAR.finditer(r)) & names
+        tag = it[0]
+        tagname = tag.split(":")[1] if tag.startswith(("upd:", "set:", "let:")) else None
+        if tagname in names:
+            present.add(tagname)
+        for x in present:
+            def sub(m):
+                return "('var', '@')" if m.group(1) == x else ("('var', '_')" if m.group(1) in names else m.group(0))
+            marked = _LVAR.sub(sub, r)
+            if tagname is not None:
+                marked = marked.replace("'%s" % tag, "'%s" % tag.replace(":%s" % tagname, ":@" if tagname == x else ":_"), 1)
+            sig[x][marked] += cnt
+    return sig
+
+
+def unify_locals(ref_items, items, fixed):
+    """A renaming of the locals of `items` onto the locals of `ref_items` (siblings name the same quantity
+    differently): greedy matching on the overlap of their occurrence signatures; identical names win ties."""
+    A = local_names(ref_items, fixed)
+    B = local_names(items, fixed)
+    sa, sb = signatures(ref_items, A), signatures(items, B)
+    pairs = []
+    for b in B:
+        for a in A:
+            ov = sum((sa[a] & sb[b]).values())
+            if ov > 0:
+                pairs.append((ov + (0.5 if a == b else 0), a, b))
+    pairs.sort(key=lambda x: (-x[0], x[1], x[2]))
+    ren, used = {}, set()
+    for sc, a, b in pairs:
+        if b in ren or a in used:
+            continue
+        ren[b] = a
+        used.add(a)
+    # a local left without a partner must not collide with a reference name it is not paired with
+    for b in B:
+        if b not in ren and b in used:
+            ren[b] = b + "'"
+    return {b: a for b, a in ren.items() if a != b}
+
+
